@@ -275,7 +275,10 @@ func TestC04(t *testing.T) {
 			snippets = append(snippets, "{{ s | "+f+" }}")
 		}
 	}
-	snippets = append(snippets, "{% include 'inc.html' %}", "{% for q in x %}{% cycle 'a', 'b' %}{% cycle 'g': '1', '2' %}{% endfor %}", "{% tablerow q in a cols: 2 %}{{ q }}{% endtablerow %}", "{% capture cc %}{{ s }}{% endcapture %}{{ cc }}", "{% case n %}{% when 1 %}one{% else %}other{% endcase %}", "{% raw %}{{ raw }}{% endraw %}{% comment %}c{% endcomment %}", "{% unless b %}u{% endunless %}", "{% assign vv = a | sort %}{{ vv | join }}", "{{ r | map: 'v' | join }}", "{{ dm.a }}{{ dm | size }}")
+	snippets = append(snippets, "{% include 'inc.html' %}", "{% for q in x %}{% cycle 'a', 'b' %}{% cycle 'g': '1', '2' %}{% endfor %}", "{% tablerow q in a cols: 2 %}{{ q }}{% endtablerow %}", "{% capture cc %}{{ s }}{% endcapture %}{{ cc }}", "{% case n %}{% when 1 %}one{% else %}other{% endcase %}", "{% raw %}{{ raw }}{% endraw %}{% comment %}c{% endcomment %}", "{% unless b %}u{% endunless %}", "{% assign vv = a | sort %}{{ vv | join }}", "{{ r | map: 'v' | join }}", "{{ dm.a }}{{ dm | size }}",
+		"{% for q in a %}{% assign ff = forloop %}{% endfor %}{{ ff.index }}/{{ ff.length }}", "{% for q in (1..3) %}{% if forloop.first %}{% assign ff = forloop %}{% endif %}{{ ff.index }}{% endfor %}")
+	// templates that do not parse: the error path is shared state too
+	broken := []string{"{% else %}", "{% if true %}{% when 1 %}{% endif %}", "{% endif %}", "{% for %}{% endfor %}", "{{ a b }}", "{% nosuchtag %}", "{% if true %}", "{% case 1 %}{% elsif 2 %}{% endcase %}", "{% tablerow x in a %}{% else %}{% endtablerow %}"}
 
 	prof := hx.FullProfile()
 	prof.Tablerow, prof.MaxNodes = true, 10
@@ -302,6 +305,9 @@ func TestC04(t *testing.T) {
 			}
 			for j, k := 0, rapid.IntRange(0, 3).Draw(t, "nsnip"); j < k; j++ {
 				src += rapid.SampledFrom(snippets).Draw(t, "snip")
+			}
+			if rapid.IntRange(0, 5).Draw(t, "broken") == 0 {
+				src = rapid.SampledFrom(broken).Draw(t, "brokensrc")
 			}
 			c.Templates = append(c.Templates, src)
 		}
